@@ -8,7 +8,7 @@
    XConstProp.repo_arith names the one the working tree's source has now. *)
 From Coq Require Import ZArith String List Bool.
 From HexVerif Require Import WMap Isa AsmLayout AsmSpecProofs AsmEncodeProofs.
-From HexVerif Require Import XAst XSem XConstProp XConstPropProofs.
+From HexVerif Require Import XAst XSem XConstProp XConstPropProofs XConstPropDeclProofs.
 Import ListNotations.
 Local Open Scope Z_scope.
 
@@ -105,6 +105,41 @@ Theorem C07_fold_int_overflow_refuted :
 Proof. split; [exact fold_int_overflow | exact fold_int_overflow_defined_program]. Qed.
 Print Assumptions C07_fold_int_overflow_refuted.
 
+(* 8. propagation of val names.  Global declarations: where the X definition (XSem.init_globals) gives the vals values,
+      ConstProp gives every ValDecl the same value (array lengths fold as well), and afterwards every constant name
+      resolves through the symbol table to that value: the environment hypotheses of theorems 1 and 2 hold. *)
+Theorem C07_val_propagation_globals : forall m p vals vars arrs,
+  XSem.wf_program p = None -> (forall q, In q (procs p) -> pname q <> ""%string) ->
+  XSem.init_globals (globals p) [] [] [] = inr (vals, vars, arrs) ->
+  exists gs vv, cp_decls m (create_symbols p) ""%string (globals p) 0 [] = COk (gs, nvals (globals p), vv) /\
+    env_ok {| cp_arith := m; cp_syms := create_symbols p; cp_scope := ""%string; cp_vals := vv |} (fun y => XSem.assoc y vals) /\
+    all_vals {| cp_arith := m; cp_syms := create_symbols p; cp_scope := ""%string; cp_vals := vv |} (fun y => XSem.assoc y vals) /\
+    globals_visible p vals (nvals (globals p)) vv.
+Proof. exact val_propagation_globals_visible. Qed.
+Print Assumptions C07_val_propagation_globals.
+
+(* 9. the same inside procedures, in the order ConstProp visits them: a procedure's own declarations (formals, local
+      variables, local vals) hide the globals of the same names exactly as in XSem.local_decls; `thread` is the sequence
+      of declaration lists cp_procs goes through, and its k-th result is the environment of the k-th body *)
+Theorem C07_val_propagation_procs : forall m p gvals (lv : proc -> list (string * Z)),
+  XSem.wf_program p = None -> (forall h, In h (procs p) -> pname h <> ""%string) ->
+  (forall q, In q (procs p) -> exists lvars, XSem.local_decls (locals q) (pnames q) gvals [] [] = inr (lvars, lv q)) ->
+  forall ps pre vv, procs p = pre ++ ps -> globals_visible p gvals (nvals (globals p) + nlocvals pre) vv ->
+  exists envs, thread m (create_symbols p) ps (nvals (globals p) + nlocvals pre) vv = COk envs /\
+    Forall2 (fun q v' =>
+               env_ok {| cp_arith := m; cp_syms := create_symbols p; cp_scope := pname q; cp_vals := v' |} (lk_local (pnames q) gvals (lv q)) /\
+               all_vals {| cp_arith := m; cp_syms := create_symbols p; cp_scope := pname q; cp_vals := v' |} (lk_local (pnames q) gvals (lv q)))
+            ps envs.
+Proof. exact val_propagation_procs. Qed.
+Print Assumptions C07_val_propagation_procs.
+
+Theorem C07_cp_procs_thread : forall m st ps n vv aps, cp_procs m st ps n vv = COk aps ->
+  exists envs, thread m st ps n vv = COk envs /\
+    Forall2 (fun qa v' => cp_stmt {| cp_arith := m; cp_syms := st; cp_scope := pname (fst qa); cp_vals := v' |} (body (fst qa)) = COk (a_body (snd qa)))
+            (combine ps aps) envs /\ length aps = length ps.
+Proof. exact cp_procs_thread. Qed.
+Print Assumptions C07_cp_procs_thread.
+
 (* the full statement against the effect-tracking interpreter XSem.eval -- not proved *)
 Definition C07_fold_agrees_full : Prop := fold_agrees_full.
 
@@ -143,3 +178,23 @@ Proof. repeat split. Qed.
 (* the run-time ordering test on the witness of C07_relational_fold_refuted, and on an in-range pair *)
 Example C07_ex_rt_less : rt_less (-2) 2147483647 = false /\ rt_less (-2) 2147483646 = true /\ rt_less 3 4 = true /\ rt_less 4 3 = false.
 Proof. repeat split. Qed.
+(* val propagation on a program: globals `val a = 5; val b = a + 1; var g`, and in main `val a = 7; val c = a + b`
+   (the local a hides the global one): ValDecl values 5, 6, 7, 13; the body's `c + g` keeps g and loads 13 *)
+Definition C07_ex_prog : program :=
+  {| globals := [DVal "a" (ENum 5); DVal "b" (EBin Plus (EVar "a") (ENum 1)); DVar "g"];
+     procs := [{| is_func := false; pname := "main"; formals := [];
+                  locals := [DVal "a" (ENum 7); DVal "c" (EBin Plus (EVar "a") (EVar "b"))];
+                  body := SSys 0 [EBin Plus (EVar "c") (EVar "g")] |}] |}.
+Example C07_ex_val_propagation :
+  XSem.wf_program C07_ex_prog = None
+  /\ XSem.init_globals (globals C07_ex_prog) [] [] [] = inr ([("b"%string, 6); ("a"%string, 5)], [("g"%string, Vundef)], [])
+  /\ (exists lvars, XSem.local_decls [DVal "a" (ENum 7); DVal "c" (EBin Plus (EVar "a") (EVar "b"))] ["a"%string; "c"%string]
+                      [("b"%string, 6); ("a"%string, 5)] [] [] = inr (lvars, [("c"%string, 13); ("a"%string, 7)]))
+  /\ thread repo_arith (create_symbols C07_ex_prog) (procs C07_ex_prog) 2 [(1%nat, 6); (0%nat, 5)]
+     = COk [[(3%nat, 13); (2%nat, 7); (1%nat, 6); (0%nat, 5)]]
+  /\ (exists q, front C07_ex_prog = COk q /\
+        map body (procs q) = [SSys 0 [EBin Plus (ENum 13) (EVar "g")]]).
+Proof.
+  split; [reflexivity|]. split; [reflexivity|]. split; [eexists; reflexivity|]. split; [reflexivity|].
+  eexists. split; reflexivity.
+Qed.
